@@ -28,6 +28,8 @@ class Gen:
         self.k = 0
         self.indent, self.comment = STYLES[p.choose(len(STYLES), "control_line_style")]
         self.simple = False
+        self.fors = []              # enumerate counters of the enclosing `for` statements, innermost last
+        self.nested_for = {0: 1, 1: 2}.get(depth, 2)      # budget of directly nested loops (loop.parent chains)
 
     def fresh(self):
         self.k += 1
@@ -38,7 +40,11 @@ class Gen:
 
     def body(self, d, py_indent):
         """(template text, python lines) of a block body: empty, comment-only, a leaf, or a nested compound"""
-        kind = self.p.choose(4 if d > 0 else 3, "body")
+        kinds = 4 if d > 0 else 3
+        nest = bool(self.fors) and len(self.fors) <= self.nested_for
+        kind = self.p.choose(kinds + (1 if nest else 0), "body")
+        if nest and kind == kinds:
+            return self.for_loop(d, py_indent, inner=True)
         if kind == 0:
             return "", [py_indent + "pass"]
         if kind == 1:
@@ -77,13 +83,8 @@ class Gen:
                 tmpl += self.ctl("else:") + t3
                 py += [ind + "else:"] + p3
             return tmpl + self.ctl("endif"), py
-        if kind == 1:       # for (optionally using loop)
-            uses_loop = bool(p.choose(2, "uses_loop"))
-            t1, p1 = self.body(d, i2)
-            extra = "${loop.index}\n" if uses_loop else ""
-            tmpl = self.ctl("for i%d in r(%d):" % (k, k)) + extra + t1 + self.ctl("endfor")
-            py = [ind + "for n%d, i%d in enumerate(r(%d)):" % (k, k, k)] + ([i2 + "out.append(str(n%d))" % k] if uses_loop else []) + p1
-            return tmpl, py
+        if kind == 1:       # for (optionally using loop), over a list, a lazy generator or a string
+            return self.for_loop(d, ind, k=k)
         if kind == 2:       # while
             t1, p1 = self.body(d, i2)
             return self.ctl("while w(%d):" % k) + t1 + self.ctl("endwhile"), [ind + "while w(%d):" % k] + p1
@@ -95,6 +96,31 @@ class Gen:
         t1, p1 = self.body(d, i2)      # with
         return self.ctl("with cm(%d) as v%d:" % (k, k)) + "${v%d}\n" % k + t1 + self.ctl("endwith"), \
             [ind + "with cm(%d) as v%d:" % (k, k), i2 + "out.append(str(v%d))" % k] + p1
+
+
+def _for_loop(self, d, ind, k=None, inner=False):
+    p = self.p
+    k = k or self.fresh()
+    i2 = ind + "    "
+    it = ["r(%d)", "g(%d)", "s(%d)"][p.choose(3, "iterable")] % k
+    use = p.choose(3 if self.fors else 2, "uses_loop")          # nothing / loop.index / loop.parent.index as well
+    parent = self.fors[-1] if self.fors else None
+    self.fors.append(k)
+    try:
+        if inner:
+            t1, p1 = self.leaf(i2) if p.choose(2, "inner_body") == 0 else self.body(d, i2)
+        else:
+            t1, p1 = self.body(d, i2)
+    finally:
+        self.fors.pop()
+    extra = ["", "${loop.index}\n", "${loop.parent.index}.${loop.index}\n"][use]
+    pyx = [[], [i2 + "out.append(str(n%d))" % k], [i2 + "out.append(str(n%s) + '.' + str(n%d))" % (parent, k)]][use]
+    tmpl = self.ctl("for i%d in %s:" % (k, it)) + extra + t1 + self.ctl("endfor")
+    py = [ind + "for n%d, i%d in enumerate(%s):" % (k, k, it)] + pyx + p1
+    return tmpl, py
+
+
+Gen.for_loop = _for_loop
 
 
 def helpers(p):
@@ -111,6 +137,17 @@ def helpers(p):
 
     def r(k):
         return [0, 1] if flag("nonempty%d" % k) else []
+
+    events = []
+
+    def g(k):
+        # a lazy iterable: producing an element is an observable event, interleaved with the body's events
+        for i in range(2 if flag("nonempty%d" % k) else 0):
+            events.append("gen%d.%d" % (k, i))
+            yield i
+
+    def s_(k):
+        return "ab" if flag("nonempty%d" % k) else ""
 
     def w(k):
         state[k] = state.get(k, 0) + 1
@@ -132,12 +169,16 @@ def helpers(p):
             return False
 
     def e(k):
+        events.append("e%d" % k)
         return "e%d" % k
 
     def reset():
         state.clear()
+        ev = list(events)
+        del events[:]
+        return ev
 
-    return dict(c=c, r=r, w=w, boom=boom, cm=CM, e=e, Boom=Boom), reset, flags
+    return dict(c=c, r=r, g=g, s=s_, w=w, boom=boom, cm=CM, e=e, Boom=Boom), reset, flags
 
 
 def h_grammar(depth):
@@ -155,7 +196,7 @@ def h_grammar(depth):
             out = TP.Template(tmpl).render(**fns)
         except Exception as ex:
             exc = ex
-        reset()
+        ev = reset()
         ns = dict(fns)
         ns["out"] = []
         ref_exc = None
@@ -163,7 +204,7 @@ def h_grammar(depth):
             exec(compile("\n".join(py) + "\n", "<reference>", "exec"), ns)
         except Exception as ex:
             ref_exc = ex
-        return dict(tmpl=tmpl, py=py, out=out, exc=exc, ref="".join(ns["out"]), ref_exc=ref_exc,
+        return dict(tmpl=tmpl, py=py, out=out, exc=exc, ref="".join(ns["out"]), ref_exc=ref_exc, ev=ev, ref_ev=reset(),
                     flags={k: bool(v) for k, v in flags.items()})
     return h
 
@@ -183,6 +224,8 @@ def on_grammar(p, r, exc, acc):
         return
     if r["exc"] is not None or got != r["ref"]:
         acc.candidate(kind="control-flow", input=desc, detail="rendered %r (exception %r), python semantics give %r" % (got, r["exc"], r["ref"]))
+    elif r["ev"] != r["ref_ev"]:
+        acc.candidate(kind="evaluation-order", input=desc, detail="events %r, python semantics give %r" % (r["ev"], r["ref_ev"]))
     if len(acc.samples) < 6:
         acc.sample(dict(template=r["tmpl"], output=got))
 
@@ -207,19 +250,28 @@ class CM:
     def __init__(self, k): self.k = k
     def __enter__(self): return "v%d" % self.k
     def __exit__(self, *a): return False
-fns = dict(c=lambda k: flag("cond%d" % k), r=lambda k: [0, 1] if flag("nonempty%d" % k) else [], w=w, boom=boom, cm=CM, e=lambda k: "e%d" % k, Boom=Boom)
+events = []
+def g(k):
+    for i in range(2 if flag("nonempty%d" % k) else 0):
+        events.append("gen%d.%d" % (k, i)); yield i
+def e(k):
+    events.append("e%d" % k); return "e%d" % k
+fns = dict(c=lambda k: flag("cond%d" % k), r=lambda k: [0, 1] if flag("nonempty%d" % k) else [], g=g, s=lambda k: "ab" if flag("nonempty%d" % k) else "",
+           w=w, boom=boom, cm=CM, e=e, Boom=Boom)
 try:
     got = "".join(Template(CASE["template"]).render(**fns).split())
-except Exception as e:
-    got = "raised %s: %s" % (type(e).__name__, str(e)[:100])
+except Exception as e_:
+    got = "raised %s: %s" % (type(e_).__name__, str(e_)[:100])
+got_ev = list(events); del events[:]
 state.clear()
 ns = dict(fns); ns["out"] = []
 try:
     exec(compile(CASE["python"] + "\\\\n", "<reference>", "exec"), ns); want = "".join(ns["out"])
 except Exception as e:
     want = "raised %s" % type(e).__name__
-print("template:", got); print("python  :", want)
+print("template:", got, got_ev); print("python  :", want, events)
 bad = None if got == want or (want.startswith("raised") and got.startswith(want)) else "control structure does not behave as the equivalent Python statements"
+if bad is None and not want.startswith("raised") and got_ev != events: bad = "evaluation is not in document order (the iterable is not consumed lazily)"
 print("VIOLATED: " + bad if bad else "HOLDS")
 sys.exit(1 if bad else 0)
 """.replace("__CASE__", repr(i))
@@ -230,7 +282,7 @@ def run(check, tier):
     global TP
     TP = common.mako("template")
     check.assume(
-        "control-structure grammar (exploration): if/elif/else, for (with and without loop), while, try/except/finally, with - nested to depth "
+        "control-structure grammar (exploration): if/elif/else, for (over a list, a lazy generator whose production of each element is an observable event, or a string; body using nothing, loop.index, or loop.parent.index under directly nested loops), while, try/except, with - nested to depth "
         "%d (nested compounds in their simple form), bodies empty / comment-only / text / expression / nested compound, %% lines indented by a solver-chosen run of blanks and carrying "
         "a solver-chosen trailing comment; conditions, iterable lengths and raising bodies are symbolic flags; the reference is the same "
         "program written in Python and executed natively" % {"quick": 0, "thorough": 1}[tier])
